@@ -855,7 +855,39 @@ def rule_h(ctx):
     ctx.floor(R, 1)
 
 
+def rule_i(ctx):
+    R = "C18.i"
+    ctx.rule(R, "typed points keep their type through pickling: corrections store configuration entries (crop points, regions) as typed point arrays inside "
+             "pickled npz entries, and code that reads them back dispatches on the point class -- a __reduce__ / __reduce_ex__ / __getstate__ of a point class "
+             "that rebuilds the object with another constructor (a plain ndarray) changes how the reloaded correction interprets them")
+    m = ctx.model
+    mod = m.mod("darsia.utils.point")
+    ctx.consult("darsia.utils.point")
+    n = 0
+    for k in mod.classes.values():
+        n += 1
+        ctx.instance(R)
+        bad = []
+        for name in ("__reduce__", "__reduce_ex__"):
+            f = k.methods.get(name)
+            if f is None:
+                continue
+            for r in ast.walk(f.node):
+                if isinstance(r, ast.Return) and isinstance(r.value, ast.Tuple) and r.value.elts:
+                    ctor = norm(r.value.elts[0])
+                    if ctor not in ("type(self)", "self.__class__", k.name, f"darsia.{k.name}") and not ctor.startswith(("super()", "_reconstruct", "copyreg.")):
+                        bad.append((f, ctor))
+                elif isinstance(r, ast.Return) and isinstance(r.value, ast.Call) and isinstance(r.value.func, ast.Attribute) and r.value.func.attr in ("__reduce__", "__reduce_ex__") \
+                        and not norm(r.value.func.value).startswith("super()"):
+                    bad.append((f, norm(r.value)[:60]))   # the pickling of another object (np.asarray(self)) is handed out as one's own
+        ctx.ob(R, k.qname, f"{k.name}: pickling rebuilds an object of the same class", not bad,
+               (f"{bad[0][0].short} returns `{bad[0][1]}` as reconstructor: a pickled {k.name} (and every subclass) comes back as another type; readers that test `isinstance(pts, VoxelArray)` "
+                "take the other branch and read the points in the other axis order") if bad else "", bad[0][0].node if bad else k.node, evidence=True)
+    ctx.floor(R, 6)
+
+
 def run(ctx):
+    ctx.guard(rule_i, ctx)
     ctx.guard(rule_h, ctx)
     ctx.guard(rule_g, ctx)
     ctx.guard(rule_f, ctx)
